@@ -2825,10 +2825,18 @@ def propagate_readonly_displays(repo, f):
         repo._simple_names = repo_simple
 
     def top_lists():
-        yield fnode.body
-        for st in fnode.body:
-            if isinstance(st, (ast.With, ast.AsyncWith)):
-                yield st.body
+        def rec(stmts, in_loop):
+            if not in_loop:
+                yield stmts
+            for st in stmts:
+                if isinstance(st, (ast.FunctionDef, ast.AsyncFunctionDef, ast.ClassDef)):
+                    continue
+                inner_loop = in_loop or isinstance(st, (ast.For, ast.AsyncFor, ast.While))
+                for fld in ("body", "orelse", "finalbody"):
+                    sub = getattr(st, fld, None)
+                    if isinstance(sub, list) and sub and isinstance(sub[0], ast.stmt):
+                        yield from rec(sub, inner_loop)
+        yield from rec(fnode.body, False)
 
     def stable(name):
         return counts.get(name, 0) == 0 and name in params or counts.get(name, 0) == 1 and name not in params
@@ -2838,8 +2846,18 @@ def propagate_readonly_displays(repo, f):
             return "seq"
         if isinstance(v, (ast.List, ast.Tuple)) and 1 <= len(v.elts) <= 8 and all(isinstance(x, ast.Name) and stable(x.id) for x in v.elts):
             return "names"
+        def stable_value(x):
+            if isinstance(x, ast.Constant):
+                return True
+            if isinstance(x, ast.Name):
+                return stable(x.id)
+            # p[0] / p.attr of a stable name: read again where the display is read (nothing in between can re-bind p; the object it
+            # denotes is an input of the function that the function only reads - a mutation of p[0] in between is not looked for)
+            if isinstance(x, ast.Subscript) and isinstance(x.slice, ast.Constant) and isinstance(x.value, ast.Name):
+                return stable(x.value.id) and x.value.id in params
+            return False
         if isinstance(v, ast.Dict) and v.keys and None not in v.keys and all(isinstance(k, ast.Constant) and isinstance(k.value, str) for k in v.keys) \
-                and all(isinstance(x, ast.Constant) or (isinstance(x, ast.Name) and stable(x.id)) for x in v.values):
+                and all(stable_value(x) for x in v.values):
             return "dict"
         return None
     imports = repo.imports.get(f.mod, {})
@@ -2886,7 +2904,7 @@ def propagate_readonly_displays(repo, f):
                 # the value names must already be bound where the display is built and never re-bound: parameters, or locals bound once
                 # in an earlier statement of the same list
                 earlier = {t.id for e_ in lst[:lst.index(st)] for t in ast.walk(e_) if isinstance(t, ast.Name) and isinstance(t.ctx, ast.Store)}
-                if any(isinstance(x, ast.Name) and x.id not in params and x.id not in earlier for x in st.value.values):
+                if any(isinstance(y, ast.Name) and y.id not in params and y.id not in earlier for x in st.value.values for y in ast.walk(x)):
                     continue
 
             def ok_use(u):
@@ -2899,6 +2917,10 @@ def propagate_readonly_displays(repo, f):
                     q_ = par.get(q_)
                 if isinstance(p_, (ast.For, ast.comprehension)) and p_.iter is u:
                     return True
+                if kind == "dict" and isinstance(p_, ast.Attribute) and p_.value is u and p_.attr in ("keys", "values", "items"):
+                    c_ = par.get(p_)
+                    if isinstance(c_, ast.Call) and c_.func is p_ and not c_.args and not c_.keywords:
+                        return True                      # a read-only view of the display
                 if kind == "names":
                     # a display of objects: only positions are read (X[0], X[1:], len(X), iteration)
                     if isinstance(p_, ast.Subscript) and p_.value is u and isinstance(p_.ctx, ast.Load):
@@ -2931,6 +2953,8 @@ def propagate_readonly_displays(repo, f):
                         root = fn_
                         while isinstance(root, ast.Attribute):
                             root = root.value
+                        if kind == "dict" and isinstance(fn_.value, ast.Name) and fn_.value.id == nm and fn_.attr in ("keys", "values", "items") and not p_.args and not p_.keywords:
+                            return True                  # a read-only view of the display
                         if isinstance(root, ast.Name) and root.id == nm or fn_.attr in _LIST_MUTATORS:
                             return False
                         if fn_.attr in repo_simple and not external_root(root):
